@@ -85,48 +85,75 @@ func ModelNs(ns libshare.Namespace) int {
 	return -1
 }
 
-var signer = bytes.Repeat([]byte{0xA5}, libshare.SignerSize)
+var (
+	signerA = bytes.Repeat([]byte{0xA5}, libshare.SignerSize)
+	signerB = bytes.Repeat([]byte{0x3C}, libshare.SignerSize)
+)
 
-// DataLen returns a data length (bytes) for which the blob occupies exactly n shares. fill selects
-// where inside the admissible interval: 0 = the minimum (one byte into the last share), 1 = the
-// maximum (last share full), 2 = somewhere in between.
-func DataLen(n, ver, fill int) int {
+// capacity of n sparse shares for the given share version
+func capacity(n, ver int) int {
 	first := libshare.FirstSparseShareContentSize
 	if ver == 1 {
 		first -= libshare.SignerSize
 	}
-	cont := libshare.ContinuationSparseShareContentSize
-	maxLen := first + (n-1)*cont
-	minLen := 1
-	if n > 1 {
-		minLen = first + (n-2)*cont + 1
-	}
+	return first + (n-1)*libshare.ContinuationSparseShareContentSize
+}
+
+// DataLen returns a data length (bytes) for which a blob of share version ver occupies exactly n shares.
+//
+//	fill 0: the minimum for that version (one byte into the last share) -- for version 1 this is inside the
+//	        20-byte window in which the signer costs an extra share
+//	fill 1: the maximum for that version (last share full)
+//	fill 2: a length that needs n shares under BOTH share versions (so that the very same payload can be
+//	        posted as v0 and as v1)
+func DataLen(n, ver, fill int) int {
 	switch fill {
 	case 0:
-		return minLen
+		if n == 1 {
+			return 1
+		}
+		return capacity(n-1, ver) + 1
 	case 1:
-		return maxLen
+		return capacity(n, ver)
 	default:
-		return minLen + (maxLen-minLen)/2
+		lo, hi := 1, capacity(n, 1) // v1 has the smaller capacity
+		if n > 1 {
+			lo = capacity(n-1, 0) + 1 // v0 has the larger one
+		}
+		return lo + (hi-lo)/2
 	}
 }
 
-// MakeBlob builds the real blob of a model blob. The bytes are a function of (mb, salt) only, so that
-// two model blobs with equal <<ns,len,ver,c>> are byte-identical (same commitment).
+// MakeBlob builds the real blob of a model blob. Two model blobs with equal <<ns,len,ver,c>> are
+// byte-identical (same commitment); blobs that differ in any of the four differ in (namespace, data,
+// share version, signer) -- but NOT necessarily in the payload: the payload bytes are a function of
+// (ns, len, salt) and, for v0 blobs, of c only, and half of the (ns,len) shapes use a data length that is
+// valid for both share versions. So blocks regularly contain the very same payload as a v0 blob, as a v1
+// blob of signer A (c=1) and as a v1 blob of signer B (c=2): three different commitments.
 func MakeBlob(mb MBlob, salt int64) (*libshare.Blob, error) {
 	var key [40]byte
 	binary.LittleEndian.PutUint64(key[0:], uint64(mb.Ns))
 	binary.LittleEndian.PutUint64(key[8:], uint64(mb.Len))
-	binary.LittleEndian.PutUint64(key[16:], uint64(mb.Ver))
-	binary.LittleEndian.PutUint64(key[24:], uint64(mb.C))
 	binary.LittleEndian.PutUint64(key[32:], uint64(salt))
+	shape := sha256.Sum256(key[:])
+	fill := int(shape[9]) % 4 // 0: min, 1: max, 2/3: common to both versions
+	c := mb.C
+	if mb.Ver == 1 && c <= 2 {
+		c = 1 // signed blobs are told apart by their signer, not by their payload
+	}
+	binary.LittleEndian.PutUint64(key[24:], uint64(c))
 	h := sha256.Sum256(key[:])
 	r := rand.New(rand.NewSource(int64(binary.LittleEndian.Uint64(h[:8]))))
-	n := DataLen(mb.Len, mb.Ver, int(h[9])%3)
-	data := make([]byte, n)
+	// generate the longest candidate and cut: payloads of the same shape share their prefix
+	data := make([]byte, capacity(mb.Len, 0))
 	r.Read(data)
+	data = data[:DataLen(mb.Len, mb.Ver, fill)]
 	if mb.Ver == 1 {
-		return libshare.NewV1Blob(Namespace(mb.Ns), data, signer)
+		sg := signerA
+		if mb.C == 2 {
+			sg = signerB
+		}
+		return libshare.NewV1Blob(Namespace(mb.Ns), data, sg)
 	}
 	return libshare.NewV0Blob(Namespace(mb.Ns), data)
 }
